@@ -94,6 +94,15 @@ func (c *monC13) spend(b int, r *harness.Resp) {
 	}
 }
 
+// useCode: a confirmed enrolment takes the texted code out of the session - with the
+// response. If a backend fault cut the request short and nothing was written (silent error
+// handler) the session still holds it and it can be presented again.
+func (c *monC13) useCode(hit *smsSent, r *harness.Resp) {
+	if r.Fired == "" || r.Wrote {
+		hit.consumed = true
+	}
+}
+
 func (c *monC13) Init(m *Machine) {
 	n := len(m.W.Jars)
 	c.sms, c.issued, c.authed = make([]*smsSent, n), make([]string, n), make([]bool, n)
@@ -232,7 +241,7 @@ func (c *monC13) After(m *Machine, s *Step) *Violation {
 			if op.K != "smsconfirm" || enrolling == "" || post.SMSPhone != enrolling || !proof {
 				return violation("C13", "sms-enabled-without-proof:"+op.K+":"+op.Src, "SMS number of %q was set to %q by %s with code %q; enrolling number %q; latest code for this browser %+v", pid, post.SMSPhone, op.K, s.Secret, enrolling, prevSMS)
 			}
-			hit.consumed = true
+			c.useCode(hit, r)
 			m.flag("enabled:sms")
 			c.spend(b, r)
 		case dS: // disabling SMS
@@ -253,7 +262,7 @@ func (c *monC13) After(m *Machine, s *Step) *Violation {
 			sameTOTP := op.K == "totpconfirm" && (a || z) && post.TOTPSecretKey == r.SessBefore["totp_secret"]
 			switch {
 			case sameSMS:
-				hit.consumed = true
+				c.useCode(hit, r)
 				m.flag("enabled:sms")
 				c.spend(b, r)
 			case sameTOTP:
